@@ -151,7 +151,18 @@ def run(ctx) -> None:
     env0 = {"field": "F", "part_pattern": "P", "used_fields": [], "part_name": "N", "PATTERN_PART_FIELDS": {"N": "F"}}
 
     def alternatives(e: ast.AST, depth: int = 0) -> T.List[T.Optional[str]]:
-        """Fold e; names with several plain definitions (one per branch) are tried one by one."""
+        """Fold e; names with several plain definitions (one per branch) are tried one by one, conditional
+        expressions branch by branch."""
+        import copy as _copy
+        ife = [x for x in ast.walk(e) if isinstance(x, ast.IfExp)]
+        if ife and depth <= 3:
+            outs: T.List[T.Optional[str]] = []
+            for pick in ("body", "orelse"):
+                class Pick(ast.NodeTransformer):
+                    def visit_IfExp(self, node: ast.IfExp) -> ast.AST:
+                        return self.visit(getattr(node, pick)) if unparse(node) == unparse(ife[0]) else self.generic_visit(node)
+                outs += alternatives(Pick().visit(_copy.deepcopy(e)), depth + 1)
+            return outs
         multi = []
         for x in ast.walk(e):
             if isinstance(x, ast.Name) and x.id not in env0 and x.id not in ipp.all_params:
